@@ -23,7 +23,7 @@ Definition loop_rec (sc : script) (w : world) (t : N) (ev : fev) : world * erec 
       e_items := snd (process sc w t ev) ++ [ISample t (mask sc (fst (process sc w t ev)))] |}).
 
 Inductive step (sc : script) : world -> erec -> world -> Prop :=
-| S_start stage m w : (stage = 0 -> w_mod w m = mst0 (cfg sc m)) ->
+| S_start stage m w : (stage = 0 -> w_mod w m = mst0 (cfg sc m)) -> active (w_mod w m) = true ->
     step sc w (snd (start_rec sc stage m w)) (fst (start_rec sc stage m w))
 | S_boot w : step sc w (boot_rec sc w) w
 | S_loop w t ev f : fes_fetch (w_fes w) = Some (t, ev, f) ->
@@ -85,8 +85,8 @@ Lemma start_one_gen sc stage m acc : Gen sc (fst acc) (snd acc) ->
   Gen sc (fst (start_one sc stage m acc)) (snd (start_one sc stage m acc)).
 Proof.
   destruct acc as [w tr]. cbn [fst snd]. intros H Hf. rewrite start_one_eq.
-  destruct ((stage <? c_stages (cfg sc m)) && active (w_mod w m)); cbn [fst snd]; [|exact H].
-  eapply G1; [exact H|apply S_start, Hf].
+  destruct ((stage <? c_stages (cfg sc m)) && active (w_mod w m)) eqn:E; cbn [fst snd]; [|exact H].
+  apply andb_true_iff in E. eapply G1; [exact H|apply S_start; [exact Hf|apply E]].
 Qed.
 
 Lemma start_one_oth sc stage m acc i : i <> m -> w_mod (fst (start_one sc stage m acc)) i = w_mod (fst acc) i.
